@@ -20,7 +20,7 @@ TRIAGE: dict[str, tuple[str, str]] = {
     "src/pest/grammar/unescape.py::_decode_escape_sequence|call|chr(_parse_hex_digits(digits, token))|ValueError": (
         SAFE, "digits has exactly two characters (checked just above) and _parse_hex_digits raises a syntax error for non-hex digits, so the value is < 256"),
     "src/pest/grammar/exceptions.py::PestGrammarError._error_context|subscript|lines[target_line_index]|IndexError": (
-        SAFE, "lines is non-empty (splitlines(...) or ['']) and target_line_index is len(lines) - 1 or an index produced by enumerate(lines)"),
+        SAFE, "lines is non-empty (an empty line is appended when splitlines() is empty or ends with a line break) and target_line_index is len(lines) - 1 or an index produced by enumerate(lines)"),
     "src/pest/pairs.py::Pair.dumps|subscript|children[0]|IndexError": (
         SAFE, "under `if n == 1` with n = len(self.children) and children built by a comprehension over self.children"),
     # ---- Parser.parse (interpreter)
